@@ -28,3 +28,6 @@ try:
                 print("   " + l[:260])
 finally:
     subprocess.run(["git", "-C", "/repo", "checkout", "--", "."], check=True)
+    # evidence written while /repo was mutated must not survive
+    for pid in ids.split(","):
+        subprocess.run(["git", "-C", "/verif", "checkout", "--", "evidence/%s.json" % pid], capture_output=True)
